@@ -29,9 +29,9 @@ pub const TARGET_KW_FIELD_NAMES: &[&str] = &[
 ];
 pub const RENAME_VALUES: &[&str] = &[
     "userId", "user-id", "X-Request-Id", "class", "default", "type", "_private", "UPPER_CASE", "a-b-c", "kebab-case-name", "content", "tag",
-    "Value", "camelCaseName", "snake_case_name", "x", "A1", "with-dash-2", "in", "self",
+    "Value", "camelCaseName", "snake_case_name", "x", "A1", "with-dash-2", "in", "self", "avatarUrl", "SessionId", "if-match",
 ];
-pub const KEY_NAMES: &[&str] = &["type", "content", "t", "c", "kind", "data", "case", "class", "default", "tag", "value", "payload", "event_payload", "Body"];
+pub const KEY_NAMES: &[&str] = &["type", "content", "t", "c", "kind", "data", "case", "class", "default", "tag", "value", "payload", "event_payload", "Body", "kindId", "payloadUrl"];
 pub const RULES: [&str; 8] = crate::c16::RULES;
 pub const GENERIC_NAMES: &[&str] = &["T", "U", "K", "V"];
 pub const MOD_NAMES: &[&str] = &["inner", "models", "api", "v1"];
@@ -172,6 +172,7 @@ pub fn ty_strategy(ctx: &TyCtx, depth: u32) -> BoxedStrategy<Ty> {
                 1,
                 inner.clone().prop_map(|t| match &t {
                     Ty::Vec(_) => Ty::Qual(vec!["std".into(), "vec".into()], Box::new(t)),
+                    Ty::Map(ref k, _) if k.rust().len() % 3 == 0 => Ty::Qual(vec!["@hasher".into()], Box::new(t)),
                     Ty::Map(..) => Ty::Qual(vec!["std".into(), "collections".into()], Box::new(t)),
                     Ty::Opt(_) => Ty::Qual(vec!["std".into(), "option".into()], Box::new(t)),
                     Ty::User { .. } => Ty::Qual(vec!["crate".into(), "types".into()], Box::new(t)),
@@ -497,7 +498,13 @@ pub fn item_strategy(g: &GenCfg, skel: &[Skel], idx: usize) -> BoxedStrategy<Ite
     let layout = if g.layouts { any::<u8>().boxed() } else { Just(0u8).boxed() };
     let annotated = if g.unannotated { prop_oneof![3 => Just(true), 1 => Just(false)].boxed() } else { Just(true).boxed() };
     let mods = if g.mods {
-        prop_oneof![3 => Just(vec![]), 2 => subsequence(MOD_NAMES.to_vec(), 1..=3).prop_map(|v| v.into_iter().map(|s| s.to_string()).collect::<Vec<String>>())].boxed()
+        prop_oneof![
+            6 => Just(vec![]),
+            4 => subsequence(MOD_NAMES.to_vec(), 1..=3).prop_map(|v| v.into_iter().map(|s| s.to_string()).collect::<Vec<String>>()),
+            // declared inside a function or method body (possibly inside a module)
+            1 => select(vec![vec!["fn:handler"], vec!["implfn:call"], vec!["inner", "fn:make"], vec!["api", "implfn:respond"]]).prop_map(|v| v.into_iter().map(|s| s.to_string()).collect::<Vec<String>>()),
+        ]
+        .boxed()
     } else {
         Just(vec![]).boxed()
     };
@@ -591,6 +598,14 @@ pub fn program(g: &GenCfg) -> BoxedStrategy<Vec<Item>> {
 /// `type A<T> = bool;` and `struct A<T>(bool);` are not Rust (E0091 / E0392: type parameter never used): a generic alias
 /// or newtype drops the parameters its target does not mention, and every reference to it drops the matching arguments.
 fn use_alias_params(items: &mut [Item]) {
+    // dropping an argument of a reference can leave the referring alias with an unused parameter in turn: repeat to a fixpoint
+    for _ in 0..8 {
+        if !use_alias_params_once(items) {
+            break;
+        }
+    }
+}
+fn use_alias_params_once(items: &mut [Item]) -> bool {
     let mut masks: Vec<(String, Vec<bool>)> = vec![];
     for it in items.iter_mut() {
         if it.generics.is_empty() {
@@ -618,7 +633,7 @@ fn use_alias_params(items: &mut [Item]) {
         }
     }
     if masks.is_empty() {
-        return;
+        return false;
     }
     for it in items.iter_mut() {
         for_types_mut(it, &mut |t| {
@@ -637,4 +652,5 @@ fn use_alias_params(items: &mut [Item]) {
             })
         });
     }
+    true
 }
